@@ -76,7 +76,7 @@ def gen_case(rng):
     lc = rng.random() < 0.5
     case = {"kind": "prox", "nd": nd, "k": rng.choice([1, 1, 2, 3, 5]), "nu": rng.choice([q(F(0)), q(F(1)), q(F(3, 2)), q(F(5, 2)), q(F(5)), "7/10", "9/10", "13/10"]),
             "lc": lc, "cap": rng.choice([1, 2, 3, 128]), "dtype": rng.choice(["f64", "f64", "f32"]),
-            "layout": rng.choice(["", "s", "o", "sv"]), "sol_dim": rng.choice([1, 2]),
+            "layout": rng.choice(["", "s", "o", "sv", "u", "uw"]), "sol_dim": rng.choice([1, 2]),
             "off": q(rng.choice([F(0), F(-8)])), "noobj": (not lc) and rng.random() < 0.3}
     span = rng.choice([2, 6, 6, 12])
     tok = [0]
@@ -113,6 +113,8 @@ def gen_case(rng):
             ops.append({"op": "bounds"})
     case["ops"] = ops
     case["forms"] = archlib.gen_forms(rng)
+    if case["forms"]["dtype"] == "dictmix":      # mixed objective / measures precision: fixed-cell runner only
+        case["forms"]["dtype"] = "dictsol"
     return case
 
 
